@@ -2,9 +2,9 @@ use std::fmt::Debug;
 
 use log::trace;
 
-use crate::runtime::error::state_error;
+use crate::runtime::error::{state_error, OrNumberError};
 use crate::runtime::utilities::{get_range, next_two_raw_ref, push_boolean};
-use garnish_lang_traits::{Extents, GarnishData, GarnishDataType, RuntimeError, TypeConstants};
+use garnish_lang_traits::{Extents, GarnishData, GarnishDataType, GarnishNumber, RuntimeError, TypeConstants};
 
 pub fn equal<Data: GarnishData>(this: &mut Data) -> Result<Option<Data::Size>, RuntimeError<Data::Error>> {
     let equal = perform_equality_check(this)?;
@@ -224,8 +224,9 @@ fn data_equal<Data: GarnishData>(this: &mut Data, left_addr: Data::Size, right_a
             let (start1, end1, _) = get_range(this, range1)?;
             let (start2, end2, _) = get_range(this, range2)?;
 
-            let extents1 = Extents::new(start1, end1);
-            let extents2 = Extents::new(start2, end2);
+            // a range holds its last number, extents end one past the last item
+            let extents1 = Extents::new(start1, end1.increment().or_num_err()?);
+            let extents2 = Extents::new(start2, end2.increment().or_num_err()?);
 
             match (this.get_data_type(value1.clone())?, this.get_data_type(value2.clone())?) {
                 (GarnishDataType::CharList, GarnishDataType::CharList) => compare_index_iterator_values(
@@ -333,7 +334,8 @@ where
     let (start, end, _) = get_range(this, slice_range)?;
     if this.get_data_type(slice_value.clone())? == expected_data_type {
         let mut iter1 = get_value_iter(this, value_addr.clone(), Extents::new(Data::Number::zero(), Data::Number::max_value()))?;
-        let mut iter2 = get_value_iter(this, slice_value.clone(), Extents::new(start, end))?;
+        // a range holds its last number, extents end one past the last item
+        let mut iter2 = get_value_iter(this, slice_value.clone(), Extents::new(start, end.increment().or_num_err()?))?;
         
         let mut index1 = iter1.next();
         let mut index2 = iter2.next();
@@ -411,7 +413,8 @@ where
 {
     let (value2, range2) = this.get_slice(slice_addr.clone())?;
     let (start2, end2, _) = get_range(this, range2)?;
-    let extents2 = Extents::new(start2, end2);
+    // a range holds its last number, extents end one past the last item
+    let extents2 = Extents::new(start2, end2.increment().or_num_err()?);
 
     match this.get_data_type(value2.clone())? {
         GarnishDataType::List => compare_item_iterators_2(this, list_addr, value2.clone(), get_value_iter, Data::get_list_item_iter, Extents::new(Data::Number::zero(), Data::Number::max_value()), extents2),
